@@ -51,6 +51,18 @@ func init() {
 			fh.Close()
 		}
 	}
+	if permille < 0 {
+		// die at once, before a single byte of stdin was read (whoever feeds this process is left
+		// with a pipe that nobody drains)
+		if f[4] == "1" {
+			syscall.Kill(os.Getpid(), syscall.SIGKILL)
+			select {}
+		}
+		if exitCode < 1 {
+			exitCode = 1
+		}
+		os.Exit(exitCode)
+	}
 	cmd := exec.Command(real, args...)
 	cmd.Stdin = os.Stdin
 	cmd.Stderr = os.Stderr
@@ -668,13 +680,31 @@ func init() {
 				target, permille, align, exit, kill = "nothing", 1000, 0, -1, 0
 			}
 			format := []string{"table", "json1"}[r.n(2)]
+			if r.coin(1, 8) {
+				// thousands of roots (more than the pipes between the feeder and rev-list hold) and a
+				// subprocess of the first pipeline that dies before it has read its input
+				tgt := r.n(len(objs))
+				refs = append(refs, fmt.Sprintf("refs/heads/m/*5000=%d", tgt))
+				args, roots = nil, nil
+				for _, rf := range refs {
+					idx, _ := strconv.Atoi(strings.SplitN(rf, "=", 2)[1])
+					roots = append(roots, idx)
+				}
+				target = []string{"rev-list", "rev-list", "cat-file --batch-check", "cat-file --batch --buffer"}[r.n(4)]
+				permille, align, missing = -1, 0, -1
+				kill = r.n(2)
+				exit = -1
+				if kill == 0 {
+					exit = []int{1, 128}[r.n(2)]
+				}
+			}
 			return []string{encRepo(objs), timesJoin(times), joinOrDash(refs, ","), encArgs(args),
 				fmt.Sprintf("%s|%d|%d|%d|%d", target, permille, align, exit, kill), strconv.Itoa(missing), format, intsJoin(roots)}
 		},
 		exec: func(in []string) []string {
 			objs := decRepo(in[0])
 			times := timesSplit(in[1])
-			refs := splitOrNil(in[2], ",")
+			refs := expandManyRefs(splitOrNil(in[2], ","))
 			args := decArgs(in[3])
 			if hasDuplicateObjects(objs, times) {
 				return []string{"dup"}
@@ -731,6 +761,24 @@ func init() {
 			return k + "/" + res[0]
 		},
 	})
+}
+
+// "refs/heads/m/*5000=7" stands for 5000 references refs/heads/m/0000 … pointing at object 7
+func expandManyRefs(refs []string) []string {
+	var out []string
+	for _, rf := range refs {
+		kv := strings.SplitN(rf, "=", 2)
+		if i := strings.Index(kv[0], "*"); i >= 0 {
+			n, _ := strconv.Atoi(kv[0][i+1:])
+			for k := 0; k < n; k++ {
+				out = append(out, fmt.Sprintf("%s%04d=%s", kv[0][:i], k, kv[1]))
+			}
+			continue
+		}
+		out = append(out, rf)
+	}
+	sort.Strings(out)
+	return out
 }
 
 func firstLine(b []byte) []byte {
